@@ -178,19 +178,26 @@ pub fn pull<I: Iterator>(mut it: I, budget: usize) -> (Vec<I::Item>, bool) {
     (v, done)
 }
 
-/// Observations of a (finite) point iterator through Iterator methods an implementation may override, each on a fresh
-/// iterator from `mk`: count(), last(), size_hint() of the fresh iterator, a walk with nth(stride - 1) recorded as
-/// [index, x, y], the size_hint after `k` items, and two more next() calls after the end.
-pub fn iter_protocol<I: Iterator<Item = embedded_graphics::geometry::Point>>(mk: impl Fn() -> I, stride: usize) -> serde_json::Value {
+/// Observations of a (finite) iterator through Iterator methods an implementation may override, each on a fresh
+/// iterator from `mk` (`pt` projects an item to a point): count(), last(), size_hint() of the fresh iterator, a walk with
+/// nth(stride - 1) recorded as [index, x, y], the size_hint after `k` items, two more next() calls after the end, and
+/// MIXED consumption: k items pulled with next(), the rest taken by count() / last() / fold(), and skip(k).count().
+pub fn iter_protocol_with<T, I: Iterator<Item = T>>(
+    mk: impl Fn() -> I,
+    stride: usize,
+    pt: impl Fn(&T) -> embedded_graphics::geometry::Point,
+) -> serde_json::Value {
     use serde_json::json;
+    let pj = |p: Option<T>| p.map(|t| pt(&t)).map(|p| json!([p.x, p.y])).unwrap_or(json!([]));
     let cnt = mk().count();
-    let last = mk().last().map(|p| json!([p.x, p.y])).unwrap_or(json!([]));
+    let last = pj(mk().last());
     let (lo, hi) = mk().size_hint();
     let mut walk = vec![];
     let mut it = mk();
     let mut idx = stride - 1;
-    while let Some(p) = it.nth(stride - 1) {
+    while let Some(t) = it.nth(stride - 1) {
         if walk.len() < 4096 {
+            let p = pt(&t);
             walk.push(json!([idx, p.x, p.y]));
         }
         idx += stride;
@@ -206,6 +213,30 @@ pub fn iter_protocol<I: Iterator<Item = embedded_graphics::geometry::Point>>(mk:
         it2.next();
     }
     let (mlo, mhi) = it2.size_hint();
+    // mixed consumption
+    let mut mixed = vec![];
+    for k in [1usize, stride + 1, cnt / 2 + 1, cnt] {
+        let adv = |k: usize| {
+            let mut it = mk();
+            for _ in 0..k {
+                it.next();
+            }
+            it
+        };
+        let c = adv(k).count();
+        let l = pj(adv(k).last());
+        // first and last item and the number of items seen by fold()
+        let (fc, ff, fl) = adv(k).fold((0usize, None, None), |(n, f, _), t| {
+            let p = pt(&t);
+            (n + 1, f.or(Some(p)), Some(p))
+        });
+        let sc = mk().skip(k).count();
+        let pp = |p: Option<embedded_graphics::geometry::Point>| p.map(|p| json!([p.x, p.y])).unwrap_or(json!([]));
+        mixed.push(json!([k, c, l, fc, pp(ff), pp(fl), sc]));
+    }
     json!({"cnt": cnt, "last": last, "lo": lo.min(1 << 30), "hi": hi.map(|h| h.min(1 << 30) as i64).unwrap_or(-1), "stride": stride, "walk": walk,
-           "after": after, "k": k, "mlo": mlo.min(1 << 30), "mhi": mhi.map(|h| h.min(1 << 30) as i64).unwrap_or(-1)})
+           "after": after, "k": k, "mlo": mlo.min(1 << 30), "mhi": mhi.map(|h| h.min(1 << 30) as i64).unwrap_or(-1), "mixed": mixed})
+}
+pub fn iter_protocol<I: Iterator<Item = embedded_graphics::geometry::Point>>(mk: impl Fn() -> I, stride: usize) -> serde_json::Value {
+    iter_protocol_with(mk, stride, |p| *p)
 }
